@@ -125,7 +125,7 @@ Proof.
   destruct bs as [|b0 bs']; [cbn; discriminate|].
   cbn [deser_loop]. generalize (good_schema (b0 :: bs')).
   destruct (rd_schema (b0 :: bs')) as [[s r]| |]; cbn [bind]; intros G; [|discriminate|contradiction].
-  destruct (merge_schema c s) as [c'|]; [|discriminate]. apply IH. lia.
+  apply IH. lia.
 Qed.
 
 Theorem deserialize_fuel_enough_l : forall bs c, deserialize bs c <> OutOfFuel.
